@@ -633,6 +633,13 @@ func c11Names(res *eng.Result, ss *sigSet) {
 		{"own-prefix-in-expression/on", c11Hdr + `leaf x { if-feature "f:a and not f:b"; type string; } }`, nil, []string{"a"}, true},
 		{"own-prefix-in-expression/off", c11Hdr + `leaf x { if-feature "f:a and not f:b"; type string; } }`, nil, []string{"a", "b"}, false},
 		{"imported-prefix/all-on", `module f { namespace "urn:f"; prefix f; import dep { prefix d; } revision 0; feature a; leaf x { if-feature "d:z"; type string; } }`, imp, nil, true},
+		// the module's own feature b is off because it depends on a, which is off; the imported module has an
+		// unconditional feature of the same name: that one must not switch the module's own b on
+		{"same-name-in-import/own-off-by-dependency", `module f { namespace "urn:f"; prefix f; import dep2 { prefix d; } revision 0; feature a; feature b { if-feature a; } leaf x { if-feature b; type string; } }`,
+			map[string]string{"dep2": `module dep2 { namespace "urn:dep2"; prefix d; revision 0; feature b; }`}, []string{"b"}, false},
+		// a deny-list names the module's own feature: the import's feature of that name stays a different feature
+		{"same-name-in-import/own-on", `module f { namespace "urn:f"; prefix f; import dep2 { prefix d; } revision 0; feature b; leaf x { if-feature b; type string; } }`,
+			map[string]string{"dep2": `module dep2 { namespace "urn:dep2"; prefix d; revision 0; feature b { if-feature nothere; } feature nothere; }`}, []string{"b"}, true},
 		{"unknown-feature", c11Hdr + `leaf x { if-feature "nope"; type string; } }`, nil, []string{"a"}, false},
 		{"feature-depends-on-feature/base-off", `module f { namespace "urn:f"; prefix f; revision 0; feature a; feature b { if-feature a; } leaf x { if-feature b; type string; } }`, nil, []string{"b"}, false},
 		{"feature-depends-on-feature/both-on", `module f { namespace "urn:f"; prefix f; revision 0; feature a; feature b { if-feature a; } leaf x { if-feature b; type string; } }`, nil, []string{"a", "b"}, true},
